@@ -1,5 +1,15 @@
 # property id -> claim text (filled as checks are admitted; everything else is listed under NA with the reason)
 CLAIMS = {
+ 'C12': {'technique': 'static analysis: guard-atom dominance on the CFG with operand identification by declaration, path enumeration for the disjunctive atom, writer/reader header-order agreement',
+         'text': 'Decides that the reassembly copy and the hand-off are control dependent on the complete acceptance test (state looked up by source address, message id, offset, total size, overflow test, bounds, '
+                 'bytes available, magic, source exclusion), that a Message starts only at offset 0, and that writer and reader agree on the header word order — for every packet sequence at once, as necessary '
+                 'conditions. Behaviour under concrete loss/duplication/reordering is not decided.',
+         'note': 'The rule identifies the operands of the single memcpy in PacketTunnelIOGateway::DoInputImplementation by shape; a different shape is reported as analysis-broken, not as a verdict.'},
+ 'C20': {'technique': 'static analysis: guard dominance for the callback dispatch, invalidate->reschedule pairing on the CFG, single-writer checks on the resolved AST',
+         'text': 'Decides the scheduler\'s structural invariants: Pulse() is dispatched only under (valid AND now >= scheduled time) with the scheduled time as argument, children are descended only while due, '
+                 'a pulsed node is invalidated and every invalidation requests a recalculation from the parent, the aggregate time has one writer and is the min of own and earliest child, list links have one '
+                 'writer. The schedule over histories and re-entrancy from callbacks are not decided.',
+         'note': 'Assumes ReschedulePulseChild keeps the scheduled list sorted.'},
  'C04': {'technique': 'static analysis: mutation->notification pairing and ordering on the CFG, subscription-table/marks pairing with argument agreement',
          'text': 'Decides the structural half of subscriber convergence for all histories at once: every payload write, attachment and removal of a node is announced, in the order that keeps the per-node subscriber '
                  'marks valid while the announcement walks them; subscription table and per-node marks change together through path-identical +1/-1/remove-all traversals; a removal is never queued behind a set of '
@@ -35,6 +45,6 @@ CLAIMS = {
          'note': 'Assumes const methods with by-value/const-ref parameters do not change what loop tests read; logging and destructor hubs are cut from the recursion graph.'},
 }
 _PENDING = 'check under construction in this session (see DESIGN.md section 4); not claimed until its rule is admitted'
-NA = {pid: _PENDING for pid in ['C01','C03','C08','C10','C11','C12','C14','C15','C16','C17','C18','C19','C20']}
+NA = {pid: _PENDING for pid in ['C01','C03','C08','C10','C11','C14','C15','C16','C17','C18','C19']}
 NA['C09'] = ('refinement of an ideal ordered map over operation histories with live iterators: its mechanisms are co-located with the mutations they protect inside single template functions; '
              'no sound structural necessary condition was found that is not either compiler-enforced or a frozen-fragment match (DESIGN.md section 4, C09)')
